@@ -136,7 +136,9 @@ def world(n, edges, n_derivers, deriver_kind, placement, tss, dynamic=None):
     processes, steps, flow, topology = {}, {}, {}, {}
     for i, ts in enumerate(tss):
         pid = f'p{i}'
-        spec = sched.probe_spec(pid, ts, 'always')
+        spec = sched.probe_spec(
+            pid, ts, {'$n': {1: False}, '$else': True}
+            if dynamic == 'all-quiet' else 'always')
         processes[pid] = spec
         topology[pid] = {'priv': (f's{i}',), 'shared': ('shared',)}
 
@@ -276,8 +278,22 @@ def world(n, edges, n_derivers, deriver_kind, placement, tss, dynamic=None):
                 for (a, b) in edges if b == i]
         put(flow, loc + (name,), deps)
     state = {'kids': {'k0': {'v': 1}}} if dynamic == 'kids' else {}
+    # scripts whose calls end BETWEEN two batches of process updates (and a
+    # tick in which every process is quiet): no step phase may run there
+    script = {'cut-half': [('run_for', 0.5, False)] * 7,
+              'cut-1.5': [('run_for', 1.5, False), ('run_for', 1.5, False),
+                          ('run_for', 1, True)],
+              'cut-forced': [('run_for', 0.5, True), ('run_for', 2.5, False),
+                             ('update', 1)],
+              'no-procs': [('update', 2), ('run_for', 1, False)],
+              }.get(dynamic, [('update', 3)])
+    if dynamic == 'no-procs':
+        processes = {k: v for k, v in processes.items()
+                     if not k.startswith('p')}
+        topology = {k: v for k, v in topology.items()
+                    if not (k.startswith('p') and k[1:].isdigit())}
     return {'processes': processes, 'steps': steps, 'flow': flow,
-            'topology': topology, 'script': [('update', 3)],
+            'topology': topology, 'script': script,
             'state': state, 'family': 'F', 'n': n, 'edges': tuple(edges),
             'derivers': n_derivers, 'deriver_kind': deriver_kind,
             'placement': placement, 'tss': tuple(tss), 'dynamic': dynamic}
@@ -601,6 +617,16 @@ def jobs(ctx):
                                     'deriver-suicide'))
             if n == 2 or not ctx.quick:
                 out.append((n, edges, 1, 'steps', 'comp', (1,), 'quiet'))
+    for n in (1, 2):
+        for edges in dags[n]:
+            for dyn in ('cut-half', 'cut-1.5', 'cut-forced', 'all-quiet',
+                        'no-procs'):
+                for nd, placement in ((0, 'flat'), (1, 'comp')):
+                    for tss in ((2,), (1, 2)):
+                        if dyn == 'no-procs' and tss != (2,):
+                            continue
+                        out.append((n, edges, nd, 'steps', placement, tss,
+                                    dyn))
     if not ctx.quick:
         for edges in all_dags(5):
             out.append((5, edges, 0, 'steps', 'flat', (1,)))
@@ -619,3 +645,7 @@ def replay(case):
         (case['dynamic'],) if case.get('dynamic') else ())
     run_job(job, acc)
     return [v for exs in acc.viol_examples.values() for v in exs]
+
+
+RULE += (
+    ' Cut worlds: scripts whose calls end BETWEEN two batches of process updates (run_for(0.5) seven times against timesteps 2 and 1+2; 1.5 + 1.5 + forced 1; a forced 0.5 first), a tick in which every process is quiet, and a composite without any process: step phases run in the constructor and after each batch of process updates only - never in an iteration that applies nothing.')
